@@ -304,4 +304,5 @@ func c36(r *core.Run) {
 			"an existing key file is decrypted with the given password", "the existing key is not decrypted with the caller's password")
 	}
 	r.Floor("C36.G3", "decryptKey calls in file.Key", nd, 1)
+	c36KeyCodec(r)
 }
